@@ -85,7 +85,7 @@ pub fn def_c01() -> CheckDef {
         real: &["InMemDicomObject::write_dataset_with_ts / _with_ts_options (DataSetWriter, StatefulEncoder, encoders)", "deflate adapter (flate2)", "InMemDicomObject::read_dataset_with_ts (DataSetReader, StatefulDecoder, build_object)"],
         stub: &["byte sink and source (SimSink/SimSource)", "independent PS3.5 generator, encoder and parser (oracle)"],
         assumptions: &["fault-free configuration: the transport may segment and interrupt but never fails (failures are C34)", "objects built through the public API have undefined-length items (the API cannot express a defined item length)", "floating point values are finite (NaN != NaN would defeat object equality)"],
-        required_probes: &["nested-depth-3plus", "encapsulated-pixel-data", "defined-length-sequence", "strategy-nochange", "odd-length-value"],
+        required_probes: &["nested-depth-3plus", "encapsulated-pixel-data", "defined-length-sequence", "strategy-nochange", "odd-length-value", "typed-date-time-number-value"],
         net: false,
     }
 }
@@ -134,7 +134,11 @@ fn run_c01(cfg: usize, w: &mut Tape, env: &EnvRef) -> RunResult {
     }
     env.with(|e| e.obs.note_with(|| format!("workload: {} {} {}", syn.name(), if nochange { "NoChange" } else { "SetUndefined" }, describe(&model))));
     let who = if deflated { "deflated" } else { syn.name() };
+    let typed_before = TYPED_BUILT.with(|c| c.get());
     let obj = build_object(&model, syn);
+    if TYPED_BUILT.with(|c| c.get()) > typed_before {
+        env.probe("typed-date-time-number-value");
+    }
     let ts = if deflated { ts_deflated() } else { ts_of(syn) };
     let mut sink = seg_sink(env);
     if deflated {
